@@ -141,7 +141,7 @@ var _ = strings.ToLower
 // messages for sequence numbers, the highest UID in use for UIDs.
 //
 //@ func (mbox *MailboxView) staticNumSet(numSet imap.NumSet) (result imap.NumSet)
-//@   props C09:callsite C08:callsite
+//@   props C09:callsite C08:callsite C04:post C05:post C06:post
 //@   requires mbox != nil
 //@   callsite staticNumRange(start, stop *uint32, max uint32) requires start != nil && stop != nil && start != stop && (max == uint32(len(mbox.l)) || max == uint32(mbox.uidNext)-1)
 
@@ -209,7 +209,7 @@ func userMailbox(u *User, name string) *Mailbox { return u.mailboxes[name] }
 // client knows it by - for every number set and tracker state.
 //
 //@ func (mbox *MailboxView) forEachLocked(numSet imap.NumSet, f func(seqNum uint32, msg *message))
-//@   props C08:callsite,bounds,inv-init,inv-step
+//@   props C08:callsite,bounds,inv-init,inv-step C06:post C09:post C04:post C05:post
 //@   requires mbox.Mailbox != nil && mbox.tracker != nil && len(mbox.l) < 0xFFFFFFFF
 //@   callsite f(seqNum uint32, msg *message) requires seqNum >= 1 && int(seqNum) <= len(mbox.l) && mbox.l[seqNum-1] == msg
 //@   loop 0 vars (i int)
